@@ -36,10 +36,26 @@ def check(ctx):
     for kind, r_write, r_del, r_rec, piece in FILES:
         check_delete(ctx, prog, R, eff, kind, R.need(r_del))
         check_writer(ctx, prog, R, eff, kind, R.need(r_write), r_rec, piece)
+    check_delete_frees_both(ctx, prog, R)
     check_push(ctx, prog, R, eff)
     check_pop(ctx, prog, R, eff)
     check_large_pop(ctx, prog, R, eff)
     tables.check_tables(ctx, prog, R)
+
+
+def check_delete_frees_both(ctx, prog, R):
+    from .roles import INNER
+    from .util import lookup_split
+    dele = prog.find(name="del_kt", self_adt=INNER, trait="abyssiniandb::DbXxxObjectSafe")
+    if not ctx.check(len(dele) == 1, "delete-frees-both", "anchor", "del_kt not found"):
+        return
+    dele = dele[0]
+    e2 = role_effects(prog, R, ["KEY_FREE", "VAL_FREE"])
+    sp = lookup_split(prog, dele, R.need("LOOKUP"))
+    if ctx.check(len(sp) == 1, "delete-frees-both", "split", "no match on the lookup result in del_kt", where=where(dele)):
+        for role in ("KEY_FREE", "VAL_FREE"):
+            ctx.check(e2.must_from(dele, sp[0][1], role) is True, "delete-frees-both", role,
+                      "deleting an entry can return Ok without freeing its %s record (the slot is never reused)" % ("key" if role == "KEY_FREE" else "value"), where=where(dele, sp[0][1]))
 
 
 def check_delete(ctx, prog, R, eff, kind, fn):
@@ -146,12 +162,19 @@ def check_writer(ctx, prog, R, eff, kind, fn, r_rec, piece):
     # the rounded size is derived from the size estimate
     ru = calls_to(prog, fn, target_fn=roundup)
     if ctx.check(len(ru) == 1, "alloc", kind + ":one-roundup", "expected one round-up in the record writer", where=where(fn)):
-        leaves = leaf_origins(prog, fn, ru[0][1]["args"][1], at=ru[0][0])
+        from . import k7
         sizer = R.need("KEY_SIZER" if kind == "key" else "VAL_SIZER")
-        est = [x for x in leaves if is_call_to(prog, fn, x, sizer)]
-        projs = {x.proj[-1] for x in est if x.proj}
-        ctx.check(projs == {"f:0", "f:1"} and all(x.kind != "param" for x in leaves if x.kind == "param"), "alloc", kind + ":roundup-of-estimate",
-                  "the slot size is not rounded up from (size-field length + payload length) of the size estimate (%s)" % sorted(projs), where=where(fn, ru[0][0]))
+        e = k7.Canon(prog, fn).op(ru[0][1]["args"][1], ru[0][0])
+        parts = []
+        def flat(c):
+            if c[0] == "bin" and c[1] == "Add":
+                flat(c[2]); flat(c[3])
+            else:
+                parts.append(c)
+        flat(e)
+        projs = sorted(p[2][-1] for p in parts if p[0] == "call?" and p[1] == sizer.id and p[2])
+        ctx.check(len(parts) == 2 and projs == ["f:0", "f:1"], "alloc", kind + ":roundup-of-estimate",
+                  "the slot size is not rounded up from exactly (size-field length + payload length) of the size estimate (argument: %s)" % k7.expr_str(e), where=where(fn, ru[0][0]))
 
 
 def check_push(ctx, prog, R, eff):
